@@ -438,6 +438,95 @@ def extra_runs(chk, shim, tmp, root, paths, rules_src, nfa, tree_replay, octr, q
         out_discipline(chk, od, nfa, " ".join(a.replace(tmp, "<tmp>") for a in args[:-2]), int(args[1]), seed, mode, tree_replay, args, sched, octr)
 
 
+# ------------------------------------------------------------------ external VALUES at the conversion boundaries, three rule forms
+EXT_INT_CANDS = [2 ** 31 - 1, 2 ** 31, 2 ** 32 - 1, 2 ** 32, 2 ** 32 + 1, 2 ** 40 + 3, -2 ** 31, -2 ** 31 - 1, -1, 0, 7, 3, 16, 1000,
+                 -2 ** 32, 2 ** 63 - 1, 1099511627776, 12]
+EXT_VALUES = {
+    "integer": [str(v) for v in (2 ** 31 - 1, 2 ** 31, 2 ** 32 - 1, 2 ** 32, 2 ** 32 + 1, 2 ** 40 + 3, -2 ** 31, -2 ** 31 - 1, -1, 0, 2 ** 63 - 1,
+                                 -2 ** 32)] + ["007", "-0", "00000000004294967296", "99999999999999999999"],
+    "float": ["1.5", "-0.0", "0.0", "4294967296.0", "2147483648.5", "-1.25", "123456789012345678.0", "7."],
+    "boolean": ["true", "false"],
+    "string": ["", "0x10", "1e3", "1e10", "12abc", "abc", "-", "1.2.3", ".5", "TRUE", "4294967296x", " 7", "-1e3", "tru"],
+}
+EXT_PLACEHOLDER = {"integer": "1", "float": "0.5", "boolean": None, "string": "placeholder"}
+
+
+def ext_value_rules(kind):
+    lit = lambda v: "(%d)" % v if v >= 0 else "(-%d)" % -v if v > -2 ** 63 else "(-9223372036854775807 - 1)"
+    if kind == "integer":
+        r = ['import "console"', 'rule show { condition: console.log("v=", v) }', "rule gt_u32 { condition: v > 4294967295 }",
+             "rule gt_i32 { condition: v > 2147483647 }", "rule negative { condition: v < 0 }", "rule odd { condition: v % 2 == 1 or v % 2 == -1 }"]
+        for i, c in enumerate(EXT_INT_CANDS):
+            r.append("rule eq_%d { condition: v == %s }" % (i, lit(c)))
+            r.append("rule half_%d { condition: v \\ 2 == %s }" % (i, lit(int(c / 2))))
+        return "\n".join(r) + "\n"
+    if kind == "float":
+        return ('import "console"\nrule show { condition: console.log("v=", v) }\nrule eq_1_5 { condition: v == 1.5 }\n'
+                "rule gt_u32 { condition: v > 4294967295.5 }\nrule ge_u32 { condition: v >= 4294967296.0 }\nrule negative { condition: v < 0.0 }\n"
+                "rule zero { condition: v == 0.0 }\nrule half { condition: v \\ 2.0 == 0.75 }\nrule seven { condition: v == 7.0 }\n")
+    if kind == "boolean":
+        return "rule is_true { condition: v }\nrule is_false { condition: not v }\n"
+    return ('import "console"\nrule show { condition: console.log("v=", v) }\nrule is_empty { condition: v == "" }\n'
+            'rule digits { condition: v matches /^[0-9]+/ }\nrule has_x { condition: v contains "x" }\nrule is_1e3 { condition: v == "1e3" }\n'
+            'rule is_0x10 { condition: v == "0x10" }\nrule is_12abc { condition: v == "12abc" }\nrule icase_true { condition: v iequals "true" }\n')
+
+
+def external_value_runs(chk, yara, yarac, tmp, HANG_S):
+    """The same `-d v=<value>` must mean the same thing (1) for source rules given to yara, (2) for compiled rules with
+    -d given to yara -C, (3) for compiled rules with -d given to yarac: line for line and in exit status."""
+    d = os.path.join(tmp, "extvals")
+    os.makedirs(os.path.join(d, "dir"), exist_ok=True)
+    one = os.path.join(d, "one.txt")
+    open(one, "w").write("some text\n")
+    for i in range(3):
+        open(os.path.join(d, "dir", "f%d.txt" % i), "w").write("file %d\n" % i)
+    n = 0
+    classes = {}
+    for kind, values in EXT_VALUES.items():
+        rules = os.path.join(d, "ext_%s.yar" % kind)
+        open(rules, "w").write(ext_value_rules(kind))
+        for val in values:
+            dv = ["-d", "v=" + val]
+            ph = EXT_PLACEHOLDER[kind] if kind != "boolean" else ("false" if val == "true" else "true")
+            yc_ph, yc_val = os.path.join(d, "ph.yarc"), os.path.join(d, "val.yarc")
+            c_ph = sh([yarac, "-d", "v=" + ph, rules, yc_ph], timeout=HANG_S)
+            c_val = sh([yarac] + dv + [rules, yc_val], timeout=HANG_S)
+            if c_ph[0] != 0:
+                chk.violation("external-value:setup", "yarac -d v=%s fails on the %s rules: %r" % (ph, kind, c_ph[2][:200]),
+                              {"kind": "external-value", "rules": open(rules).read()}, found_input=False)
+                break
+            outs = {}
+            for tname, targs, srt in (("single file", [one], False), ("directory -p 2", ["-p", "2", os.path.join(d, "dir")], True)):
+                forms = [("source rules, -d given to yara", [yara, "-w"] + dv + [rules] + targs),
+                         ("compiled rules, -d given to yara -C", [yara, "-w", "-C"] + dv + [yc_ph] + targs),
+                         ("compiled rules, -d given to yarac", [yara, "-w", "-C", yc_val] + targs)]
+                res = []
+                for fname, cmd in forms:
+                    if fname.endswith("yarac") and c_val[0] != 0:
+                        res.append((fname, c_val[0], ["<yarac failed>"], c_val[2][:200]))
+                        continue
+                    rc, out, err = sh(cmd, timeout=HANG_S)
+                    n += 1
+                    lines = [l for l in out.split("\n") if l]
+                    res.append((fname, rc, sorted(lines) if srt else lines, err[:200]))
+                sig = [(rc, lines, bool(err.strip())) for _, rc, lines, err in res]
+                if not (sig[0] == sig[1] == sig[2]):
+                    chk.violation("external-value:" + kind,
+                                  "`-d v=%s` (%s) means different things in the three rule forms (%s): %s"
+                                  % (val, kind, tname, "; ".join("%s -> exit %r, %s%s" % (f, rc, [x.replace(d, "<d>") for x in lines[:6]],
+                                                                                           (" stderr " + repr(err[:80])) if err.strip() else "")
+                                                                 for f, rc, lines, err in res)),
+                                  {"kind": "external-value", "value": val, "class": kind, "rules": open(rules).read(), "target": tname,
+                                   "placeholder_given_to_yarac_for_form_2": ph,
+                                   "forms": [{"form": f, "exit": rc, "stdout": [x.replace(d, "<d>") for x in lines[:40]], "stderr": err}
+                                             for f, rc, lines, err in res]})
+                outs[tname] = res[0][2]
+            classes.setdefault(kind, []).append((val, [l for l in outs["single file"] if l.startswith("v=")][:1]))
+    chk.note(external_values=dict(runs=n, values={k: len(v) for k, v in EXT_VALUES.items()},
+                                  observed_conversion={k: ["%s -> %s" % (a, (b[0] if b else "-")) for a, b in v] for k, v in classes.items()}))
+    return n
+
+
 # ------------------------------------------------------------------ per-file module state must not outlive its scan
 MOD_RULES = {   # module -> rules that use per-file state of that module (%(...)s filled per tree)
     "hash": 'rule h_known_a { condition: hash.md5(0, filesize) == "%(md5a)s" }\n'
@@ -1001,6 +1090,10 @@ def _run_all(chk, quick, tmp, yara, yarac, shim, model, slots, info, replay_spec
             if not (a[:2] == b[:2] == c[:2]):
                 chk.violation("compiled:single", "single file %s: source rules vs yarac output differ" % os.path.relpath(p, root),
                               tree_replay({"kind": "compiled-single", "file": os.path.relpath(p, root), "outs": [a[1][:300], b[1][:300], c[1][:300]]}))
+
+    # ---------------------------------------------------------------- externals: values at the conversion boundaries, three forms
+    evals += external_value_runs(chk, yara, yarac, tmp, HANG_S)
+    distinct.update(("external-value", k, v) for k, vs in EXT_VALUES.items() for v in vs)
 
     # ---------------------------------------------------------------- a limit hit in one file must not change later files
     # In directory / scan-list mode every thread keeps ONE scanner for all the files it dequeues.  A string that hits
